@@ -60,8 +60,9 @@ site('decl.c', 'addmember', 'error', "struct member '%s' has variably modified t
      T('bdecl', 'struct s_ { int (*m_)[h_l]; };', "'m_'"))
 
 # ------------------------------------------------------------------ decl.c: decl
-site('decl.c', 'decl', 'assert', 'funcscope',
-     J('internal', 'a function declarator directly followed by { always recorded its parameter scope'))
+site('decl.c', 'decl', 'error', 'function definition must have a function declarator',
+     T('fdecl', 'typedef int ft_(void); ft_ f_ { return 0; }', note='regression (fixed 9ed09ef): was the funcscope assertion'),
+     T('fdecl', 'typedef void ft_(int); ft_ g_ { }'))
 site('decl.c', 'decl', 'error', "'%s' redeclared with different kind",
      T('decl', 'int x_; typedef int x_;', "'x_'"),
      T('decl', 'int x_(void); extern int x_;', "'x_'"),
